@@ -108,6 +108,11 @@ class PROP(Prop):
                         for parts in splits:
                             cs.append(Case(cligen.cli_line(proto, slave, [cligen.call_op(req, R=mb.rscript(parts), typed=True)]),
                                            {"foreign": True, "req": mb.show_req(req), "pdu": pdu.hex(), "split": len(parts[0])}, prof))
+        # one TCP client object through more than 65 536 typed calls: every one returns exactly the requested items
+        slave, ops = rng.randrange(1, 248), []
+        for j in range(65536 + 20):
+            ops.append(cligen.call_op(("RHR", j & 0xFFFF, 1), R="d" + cligen.frame("tcp", j & 0xFFFF, slave, bytes([3, 2, (j >> 8) & 255, j & 255])).hex(), typed=True))
+        cs.append(Case(cligen.cli_line("tcp", slave, ops), {"longlived": len(ops), "q": 0, "have": 0}, "debug"))
         # the typed methods of the BLOCKING client, under no timeout, an ordinary one and the largest ones a Duration can hold: a result, never a panic
         for tmo in ("-", "1000", "max"):
             for setmax in (False, True):
@@ -138,6 +143,12 @@ class PROP(Prop):
         r, _ = cligen.res_and_w(c.impl or "")
         if "PANIC" in r or "CRASH" in r or "NORESULT" in r:
             return "typed method panicked: %s" % r[:60]
+        if c.meta.get("longlived"):
+            rs = [cligen.res_and_w(x)[0] for x in cligen.split_results(c.impl)]
+            for j, got in enumerate(rs + ["<missing>"] * (c.meta["longlived"] - len(rs))):
+                if got != "W:%d" % (j & 0xFFFF):
+                    return "typed call no. %d on one client object returned %s, the reply carried the one word %d" % (j + 1, got[:40], j & 0xFFFF)
+            return None
         if c.meta.get("sync"):
             first = [x for x in (c.impl or "").split(" ; ") if not x.startswith("ok")][0] if c.impl else ""
             return None if first[:2] in ("B:", "W:") or first.startswith("U") else "blocking typed method on a well-behaved server: %s" % (c.impl or "")[:80]
